@@ -89,10 +89,13 @@ pub(crate) async fn run_command_loop(
                 }
                 Err(broadcast::error::RecvError::Lagged(n)) => {
                     tracing::warn!(handle = core_handle, skipped = n, "System event bus lagged for SocketCore!");
-                    // Potentially treat as critical error and initiate shutdown if not already underway
-                    if current_shutdown_phase == ShutdownPhase::Running {
-                        final_error_for_actorstop = Some(ZmqError::Internal("SocketCore: Event bus lagged".into()));
-                        shutdown::initiate_core_shutdown(core_arc.clone(), &socket_logic_strong, true).await;
+                    // Events were skipped - a burst of connections coming and going is enough for
+                    // that. It is no reason to stop the socket: children that ended are found by
+                    // the reaper; a ContextTerminating that was skipped shows in the context's flag.
+                    if current_shutdown_phase == ShutdownPhase::Running
+                      && core_arc.context.inner().shutdown_initiated.load(std::sync::atomic::Ordering::Acquire)
+                    {
+                        shutdown::initiate_core_shutdown(core_arc.clone(), &socket_logic_strong, false).await;
                     }
                 }
                 Err(broadcast::error::RecvError::Closed) => {
